@@ -6,7 +6,7 @@ PROPS = {
     "C12": dict(
         level="proof",
         contracts=["contracts.c12"],
-        legs=[],
+        legs=[dict(name="c12_native", cmd="PYTHONPATH={repo} " + PY312 + " legs/c12_native.py")],
         explanation="",
         assumptions=[],
         technique="contract-based deductive verification: VCs generated from the real source ASTs by pyvc, discharged by z3/cvc5",
@@ -26,7 +26,7 @@ EI_NOTE = ("trusted: pyvc executor/encoding, z3/cvc5; hooks modelled as oracles 
 PROPS["C05"] = dict(
     level="proof", contracts=["contracts.extract_iter", "contracts.c13"],
     unit_filter=lambda u: u.name in ("C05.extract_iter", "C13.extract_child", "C13.extract"),
-    legs=[], technique=TECH,
+    legs=[dict(name="c05_faults", cmd="PYTHONPATH={repo} " + PY312 + " legs/c05_faults.py")], technique=TECH,
     claim="extract_iter (whole real body, all 8 loops cut by invariants), extract_child and extract are executed symbolically from their "
           "entries: no path lets an Exception escape (every hook call site is inside a handler that records it; every pop/index/unpack/"
           "assert is safe); the error ledger clause shows save_errors grows by exactly the exceptions raised, in order, and extract_child "
@@ -36,7 +36,7 @@ PROPS["C05"] = dict(
 PROPS["C10"] = dict(
     level="proof", contracts=["contracts.extract_iter", "contracts.small_units"],
     unit_filter=lambda u: u.name in ("C05.extract_iter", "C10.frame_iterator_next"),
-    legs=[], technique=TECH,
+    legs=[dict(name="c10_model", cmd="PYTHONPATH={repo} " + PY312 + " legs/c10_model.py")], technique=TECH,
     claim="Step refinement of the documented rules by the two-deque loop, proved per outer iteration for all queue contents and hook results: "
           "the head frame is yielded; None keeps the rest; otherwise the queue is moved back in order, the replace form drops exactly the "
           "longest prefix with depth >= the frame's depth (dropWhile), the insert form drops nothing and omits the trailing next_inner, "
@@ -45,7 +45,8 @@ PROPS["C10"] = dict(
           "unwrap step (None members filtered) are argued in DESIGN.md, not machine-checked; termination is not proved (known finding F9).",
     note=EI_NOTE)
 PROPS["C11"] = dict(
-    level="proof", contracts=["contracts.c11"], legs=[], technique=TECH,
+    level="proof", contracts=["contracts.c11", "contracts.c13", "contracts.glue_small"],
+    unit_filter=lambda u: u.name.startswith("C11.") or u.name == "C13.push", legs=[], technique=TECH,
     claim="fill_context's loop is cut by an invariant: elaborate_context runs on the current manager, unwrap_context sees it as elaborate left "
           "it; a returned manager replaces obj and resets inner_stack/children before re-elaboration (invariant for k>0); None stops with "
           "nothing else changed; PRUNE sets hide and stops; 100 iterations end in RuntimeError after one extra unwrap call; outside an "
@@ -67,10 +68,25 @@ PROPS["C13"] = dict(
 PROPS["C16"] = dict(
     level="proof", contracts=["contracts.c16", "contracts.extract_iter", "contracts.c13"],
     unit_filter=lambda u: u.name in ("C16.better_origin", "C05.extract_iter", "C13.extract_outermost"),
-    legs=[], technique=TECH,
+    legs=[dict(name="chains_C16", cmd="PYTHONPATH={repo} " + PY312 + " legs/chains.py C16")], technique=TECH,
     claim="better_origin's result is characterised exactly; at the only place a Frame is built in extract_iter a non-None origin is a "
           "generator-like object whose own gi_frame/cr_frame/ag_frame IS that frame, and a generator-like origin arriving with its own "
           "frame is kept; queue entries carry a weak-referenceable generator-like item as its own origin; extract_outermost returns the "
           "first value yielded by the same generator under the same options and raises group / single error / RuntimeError otherwise.",
     note=EI_NOTE + "; that extract_outermost(origin) unwraps to origin's own frame relies on the built-in unwrapper contracts (C03 glue units)")
+PROPS["C03"] = dict(
+    level="other", contracts=["contracts.extract_iter", "contracts.small_units", "contracts.glue_small"],
+    unit_filter=lambda u: u.name.startswith("C03.") or u.name == "C05.extract_iter",
+    legs=[dict(name="chains_C03", cmd="PYTHONPATH={repo} " + PY312 + " legs/chains.py C03")], technique=TECH + "; bounded throw-oracle leg for the interpreter axioms",
+    explanation="Deductive part: the five built-in unwrappers are proved against their contracts (suspended: (own frame, delegate); running: "
+                "StackSlice(outer=own frame); async generators running only when ag_await is None; asend/athrow and coroutine_wrapper: first "
+                "referent with ag_frame/cr_frame), Frame.__post_init__ captures f_lineno, extract_child's root rule, and extract_iter's queue "
+                "discipline (unwrap step: children pushed at depth+1 in front of the rest, None members skipped; leaf returned when the head "
+                "is not a Frame; the with_contexts block writes only frame.contexts and the error list). That these contracts add up to 'the "
+                "path a thrown exception takes' rests on CPython object-model axioms (gi_yieldfrom/cr_await/ag_await name the delegate) which no "
+                "verifier here can discharge: the bounded leg compares extract(x).frames with the traceback of x.throw(Probe) on every chain of "
+                "depth <= 2 (thorough: 3) over 8 link kinds x 2 ends — a bounded stand-in, not a proof.",
+    claim="Unwrapper and queue-discipline contracts proved for all inputs; agreement with the interpreter's exception path checked on an "
+          "exhaustively enumerated bounded family of chains (stated bound), which is what decides the property's interpreter-dependent part.",
+    note=EI_NOTE + "; CPython object-model axioms assumed for the composition; exact DFS-flattening lemma (C03.flatten) not machine-checked")
 NOT_APPLICABLE = {}
